@@ -46,13 +46,15 @@ def gen(ctx, deep):
         P, G, G2, R = ec.universe(shape)
         ops = ec.op_alphabet(shape)
         inits = [{"p": [], "g": [], "g2": []}, {"p": P, "g": G, "g2": G2}, {"p": P[:1], "g": G[:1], "g2": G2[:1]}]
-        for init in inits:
+        for k, init in enumerate(inits):
             cfg = ec.Config(shape, adapter=True, watcher=None, initial=init)
             for a in ops:
                 jobs.append((cfg, [a]))
             for a in ops:
                 for b in ops:
-                    jobs.append((cfg, [a, b]))
+                    # every pair from the full initial policy; from the empty and the small one a seeded half (quick tier)
+                    if k == 1 or deep or rng.random() < 0.5:
+                        jobs.append((cfg, [a, b]))
         # a window with auto_build_role_links off in which nothing but a reload (of the mirrored store) happens, then
         # incremental maintenance again; and a swap of the role manager followed by a rebuild
         window = [("autobuild", False), ("load", None), ("autobuild", True)]
@@ -92,7 +94,7 @@ def run(ctx):
         if res.spec_violations:
             break
     res.rule = (
-        "RBAC, RBAC-with-domains and resource-role models x 3 initial policies: every history of length <= 2 over the op alphabet "
+        "RBAC, RBAC-with-domains and resource-role models x 3 initial policies: every history of length <= 2 over the op alphabet from the full initial policy (quick tier: a seeded half of the pairs from the empty and the small initial policy, thorough: all) "
         "(single/batch/filtered adds and removes of role assignments and permissions incl. duplicate, rejected, partly-present batches, "
         "delete_user/delete_role/delete_roles_for_user, update, clear_policy, build_role_links, load_policy, save_policy) plus seeded random "
         "histories of length 3-9; after every call ~40 queries (all decisions, has_link pairs, get_roles, get_users) are compared with a "
